@@ -429,3 +429,13 @@ def c19_fresh(tier="quick", seed=0):
                 bad = (src, got, want)
     return [ob("C19.bounded.fresh-results", bad is None, "B", f"{n} parse-mutate-parse sequences" if bad is None else f"{bad[0][-160:]} -> {bad[1]!r}, expected {bad[2]!r}",
                witness=(bad[0] if bad else None), confirmed=True if bad else None, domain=n)]
+
+
+# ---- fixed probes (known deviations are listed in /verif/known_findings.json and reported as KNOWN-FINDING) ------------------
+PROBES_C19 = [('stringify-accessor-property', 'JSON.stringify({a: 1, get b() { return 2 }})', '{"a":1,"b":2}'), ('stringify-toJSON', 'JSON.stringify({toJSON: function () { return 5 }})', '5')]
+groups.register_probes("C19", PROBES_C19)
+
+
+PROBES_C19 += [
+    ("parse-negative-zero", "[1 / JSON.parse('-0'), 1 / JSON.parse('[-0]')[0], 1 / JSON.parse('0'), 1 / JSON.parse('-0.0')].join()", "-Infinity,-Infinity,Infinity,-Infinity"),
+]
